@@ -263,7 +263,8 @@ def _optimize_char_class(singles: list[str], ranges: list[tuple[str, str]]) -> s
     for start, end in ranges:
         s_cp, e_cp = ord(start), ord(end)
         if s_cp > e_cp:
-            s_cp, e_cp = e_cp, s_cp
+            # An empty range never matches.
+            continue
         norm_ranges.append((s_cp, e_cp))
 
     # Merge ranges
@@ -287,4 +288,6 @@ def _optimize_char_class(singles: list[str], ranges: list[tuple[str, str]]) -> s
             parts_out.append(re.escape(chr(s)))
         else:
             parts_out.append(f"{re.escape(chr(s))}-{re.escape(chr(e))}")
+    if not parts_out:
+        return r"(?!)"
     return "[" + "".join(parts_out) + "]"
